@@ -41,9 +41,11 @@ pub(crate) trait GhostItem: Sized {
 impl GhostItem for Vec<crate::raft_log::wal::flush_request::FlushStat> {}
 
 struct Q<T> {
-    /// ManuallyDrop: the queue has no drop glue (items still queued at the end
-    /// of a run are leaked, like everything else in a harness)
-    items: core::mem::ManuallyDrop<[Option<T>; QCAP]>,
+    /// MaybeUninit: no drop glue (items still queued at the end of a run are
+    /// leaked, like everything else in a harness) and no Option discriminant to
+    /// test when an item is taken out (a discriminant read back from the heap
+    /// is symbolic: two paths, and the merged item loses its concrete variant)
+    items: [core::mem::MaybeUninit<T>; QCAP],
 }
 
 pub(crate) struct Chan<T> {
@@ -99,7 +101,7 @@ pub(crate) fn sync_channel<T>(_bound: usize) -> (SyncSender<T>, Receiver<T>) {
     let ch = Arc::new(Chan {
         id,
         q: UnsafeCell::new(Q {
-            items: core::mem::ManuallyDrop::new([None, None, None, None, None, None, None, None]),
+            items: [const { core::mem::MaybeUninit::uninit() }; QCAP],
         }),
     });
     (SyncSender { id, ch: ch.clone() }, Receiver { id, ch })
@@ -134,8 +136,7 @@ impl<T: GhostItem> Chan<T> {
                 panic!("ghost channel capacity exceeded");
             }
             TAGS[id][tail] = t.ghost_tag();
-            // slot is None: plain write, no drop glue of the old value
-            core::ptr::write(&mut self.q().items[tail], Some(t));
+            self.q().items[tail].write(t);
             TAIL[id] = tail + 1;
         }
     }
@@ -147,13 +148,9 @@ impl<T: GhostItem> Chan<T> {
                 return None;
             }
             let tag = TAGS[id][head];
-            let t = core::ptr::read(&self.q().items[head]);
-            core::ptr::write(&mut self.q().items[head], None);
+            let t = self.q().items[head].assume_init_read();
             HEAD[id] = head + 1;
-            match t {
-                Some(t) => Some(t.ghost_rebuild(tag)),
-                None => None,
-            }
+            Some(t.ghost_rebuild(tag))
         }
     }
 
